@@ -172,6 +172,48 @@ def t_exit(ptype, is_open=True):
     return t
 
 
+def t_on_open(ptype):
+    """_on_open_position: every declared stop-loss / take-profit row becomes ONE reduce-only order on the closing side with exactly
+    the row's own quantity - also when the row lies on the wrong side of the entry price and is replaced by a market order"""
+    def t(h):
+        w = common.futures_world(h, mode=common.any_mode(h))
+        pos = w.positions['BTC-USDT']
+        cur = h.real('cur')
+        h.assume(ops.compare('>', cur, 0))
+        common.open_position(h, pos, ptype)
+        s, api = strategy(h, w, cur)
+        sl, tp = rows2(h, 'sl', 2), rows2(h, 'tp', 2)
+        s.f['stop_loss'] = s.f['_stop_loss'] = arr2(sl)
+        s.f['take_profit'] = s.f['_take_profit'] = arr2(tp)
+        ov = h.ctx.cfg.overrides
+        ov[f'{ST}._broadcast'] = lambda i, a, k: None
+        ov[f'{ST}.on_open_position'] = lambda i, a, k: None
+        ov[f'{ST}._detect_and_handle_entry_and_exit_modifications'] = lambda i, a, k: None
+        o = Obj(None, {'id': 'entry'}, name='entry order')
+        h.cover('on-open.pre')
+        out = h.method_outcome(s, '_on_open_position', o)
+        h.prove(out.ok, f'on-open.{ptype}.no-exception', {'raised': out.exc})
+        if not out.ok:
+            return
+        subs = [c for c in api.calls if c[0] in ('MARKET', 'LIMIT', 'STOP')]
+        h.prove(len(subs) == 4 and len(api.calls) == 4, f'on-open.{ptype}.one-order-per-declared-row', {'calls': [c[0] for c in api.calls]})
+        if len(subs) != 4:
+            return
+        goal = True
+        tags = True
+        for (kind, args, od), (q, p), tag in zip(subs, sl + tp, ['stop-loss'] * 2 + ['take-profit'] * 2):
+            goal = ops.land(goal, ops.equal(ops.absval(args[2]), q))
+            goal = ops.land(goal, args[4] == K.closing_side(ptype))
+            if kind != 'MARKET':
+                # routed by reduce_position_at (exit.*): reduce-only, at the declared price.  A row on the wrong side of the entry price
+                # is replaced by a plain market order of the row's quantity (jesse's documented behaviour; not reduce-only)
+                goal = ops.land(goal, ops.land(args[5] is True, ops.equal(args[3], p)))
+            tags = tags and od.f['submitted_via'] == tag
+        h.prove(goal, f'on-open.{ptype}.each-exit-has-its-own-row-quantity-on-the-closing-side-and-resting-ones-their-row-price')
+        h.prove(tags, f'on-open.{ptype}.exits-are-tagged-by-their-declaration')
+    return t
+
+
 def t_sandbox(kind):
     def t(h):
         made = []
@@ -536,6 +578,8 @@ def tasks(tier):
     for pt in ('long', 'short'):
         ts.append(Task(f'exit.{pt}', t_exit(pt), extra=x, overrides=dict(ov)))
     ts.append(Task('exit.closed', t_exit('long', False), extra=x, overrides=dict(ov)))
+    for pt in ('long', 'short'):
+        ts.append(Task(f'on-open.{pt}', t_on_open(pt), extra=x, overrides=dict(ov)))
     for kind in ('LIMIT', 'STOP'):
         ts.append(Task(f'sandbox.{kind}', t_sandbox(kind), extra=x, overrides=dict(ov)))
     for kind in ('stop_loss', 'take_profit'):
